@@ -66,6 +66,15 @@ func Addr(s signature.Signer) staking.Address { return staking.NewAddress(s.Publ
 
 func q(n uint64) quantity.Quantity { return *quantity.NewFromUint64(n) }
 
+func maxU(a uint64, l []uint64) uint64 {
+	for _, x := range l {
+		if x > a {
+			a = x
+		}
+	}
+	return a
+}
+
 func maxInt(a, b int) int {
 	if a > b {
 		return a
@@ -87,6 +96,7 @@ type GenesisOptions struct {
 	MaxPerEntity       int  // scheduler MaxValidatorsPerEntity (default 1)
 	ExtraNodes         bool // entity 1 also owns node 3 (a second validator node) at genesis
 	NodeExpiration     uint64 // expiration epoch of genesis nodes (default 4)
+	NodeExpirations    []uint64 // per-node override of the expiration epoch
 
 }
 
@@ -163,7 +173,7 @@ func Genesis(k *Keys, o GenesisOptions) (*genesis.Document, error) {
 				DebugAllowUnroutableAddresses: true,
 				DebugAllowTestRuntimes:        true,
 				DebugDeployImmediately:        true,
-				MaxNodeExpiration:             beacon.EpochTime(o.NodeExpiration + 1),
+				MaxNodeExpiration:             beacon.EpochTime(maxU(o.NodeExpiration, o.NodeExpirations) + 1),
 				EnableRuntimeGovernanceModels: map[registry.RuntimeGovernanceModel]bool{
 					registry.GovernanceEntity:  true,
 					registry.GovernanceRuntime: true,
@@ -325,7 +335,11 @@ func Genesis(k *Keys, o GenesisOptions) (*genesis.Document, error) {
 			return nil, err
 		}
 		doc.Registry.Entities = append(doc.Registry.Entities, se)
-		sn, err := node.MultiSignNode(k.NodeSigners(e), registry.RegisterGenesisNodeSignatureContext, k.NodeDescriptor(e, e, beacon.EpochTime(o.NodeExpiration), node.RoleValidator))
+		exp := o.NodeExpiration
+		if e < len(o.NodeExpirations) && o.NodeExpirations[e] > 0 {
+			exp = o.NodeExpirations[e]
+		}
+		sn, err := node.MultiSignNode(k.NodeSigners(e), registry.RegisterGenesisNodeSignatureContext, k.NodeDescriptor(e, e, beacon.EpochTime(exp), node.RoleValidator))
 		if err != nil {
 			return nil, err
 		}
